@@ -201,6 +201,8 @@ pub enum Op
     EwrAdd(u8, Slot, u32),
     /// Remove the triggers selected by the bit mask (bit i = i-th trigger of the reactor's bundle) for a slot.
     EwrRemove(u8, Slot, u8),
+    /// One `remove` call whose bundle names several entities: (slot, trigger mask) each.
+    EwrRemoveMany(u8, Vec<(Slot, u8)>),
     // faults / probes
     KillInst(Inst),
     Probe,
